@@ -15,9 +15,11 @@ CONSTANTS
   WithFail = TRUE
   WithInflight = TRUE
   WithSwap = TRUE
+  WithOvertake = TRUE
   WithRestart = TRUE
   AlterDbChecked = TRUE
   AlterIdxRecheck = TRUE
   DropGuarded = TRUE
   CreateFromDrop = FALSE
+  ProbeAfterDrop = TRUE
   TabT = {0, 1, 2, 3}
